@@ -42,12 +42,15 @@ func paramsFromHeadersAndCookies(endpoint *expr.HTTPEndpointExpr, rand *expr.Exa
 			// define authorization.
 			return nil
 		}
-		required := endpoint.Headers.IsRequiredNoDefault(name)
+		// The generated decoder rejects a request that lacks a required header
+		// whether or not the attribute has a default value (the default only
+		// applies to optional headers), as it does for query string parameters.
+		required := endpoint.Headers.IsRequired(name)
 		params = append(params, paramFor(att, elem, "header", required, rand))
 		return nil
 	})
 	expr.WalkMappedAttr(endpoint.Cookies, func(name, elem string, att *expr.AttributeExpr) error { // nolint: errcheck
-		required := endpoint.Cookies.IsRequiredNoDefault(name)
+		required := endpoint.Cookies.IsRequired(name)
 		params = append(params, paramFor(att, elem, "cookie", required, rand))
 		return nil
 	})
